@@ -56,6 +56,7 @@ INVARIANT ExpandingKeeps
 PROPERTY PresentAfterAdd
 PROPERTY DupInsertsNothing
 PROPERTY PopRefused
+PROPERTY NoEarlyGrowth
 ACTION_CONSTRAINT Emit
 CHECK_DEADLOCK FALSE
 """
@@ -232,6 +233,9 @@ class Ctx:
             if st["pre"] and not o[2]:
                 same = ob["subs"] == before["subs"] and ob["total"] == before["total"] + 1
                 t.check(same, "C09" if not self.rot else "C10", "C09.dup_inserts_nothing" if not self.rot else "C10.dup_inserts_nothing", ENGINE, rp2, sig)
+        if o[0] == "add" and len(ob["subs"]) > len(before["subs"]) and before["subs"]:
+            # grows exactly when the newest filter is full - also after explicit pushes, where the closed formula below does not apply
+            t.check(before["subs"][-1]["n"] >= self.est, P, f"{P}.no_early_growth", ENGINE, rp2, sig)
         if not self.rot:
             if not st["manual"]:
                 want = 0 if st["eff"] == 0 else -(-st["eff"] // self.est) - 1
@@ -321,7 +325,7 @@ def profiles(tier, seed, light=False):
 
 FOCUS_FILTER = {"C09": lambda p: not p["rotating"], "C10": lambda p: p["rotating"], "C01": lambda p: not p["rotating"]}
 INVPROP = {"SubCap": None, "Growth": "C09", "TotalIsCalls": "C14", "QueueBound": "C10", "AtLeastOne": "C10", "Window": "C10", "ExpandingKeeps": "C01",
-           "PresentAfterAdd": "C10", "DupInsertsNothing": "C09", "PopRefused": "C10"}
+           "PresentAfterAdd": "C10", "DupInsertsNothing": "C09", "PopRefused": "C10", "NoEarlyGrowth": None}
 
 
 def run(focus, tier, seed):
